@@ -173,7 +173,7 @@ theorem SyncInvX.of_own {X : Nat → Prop} {s s' : Server} {i : Nat} (h : SyncIn
     by_cases hc : c = (getObj s i).id
     · subst hc
       refine ⟨i, hreg, ?_⟩
-      rcases g.ent_own h.idx f he with ⟨e0, k0⟩ | k1
+      rcases g.ent_own h.idx (h.key i) f he with ⟨e0, k0⟩ | k1
       · obtain ⟨j, hj, hf⟩ := h.own _ f e0
         rw [hreg] at hj
         cases hj
@@ -711,7 +711,7 @@ theorem inheritStep_eq (cid : Str) (i : Nat) (b : Server) (fs : Str × Sub) :
 
 /-- the loop of `inheritClientSession` that re-subscribes the new object `i` to the old session's filters -/
 theorem inheritFold_spec (cid : Str) (i : Nat) (l : List (Str × Sub)) (b : Server) (hi : i < b.objs.length)
-    (hid : (getObj b i).id = cid) :
+    (hid : (getObj b i).id = cid) (hnb : ∀ fs ∈ l, shareBare fs.2.filter = false) :
     Own i b (l.foldl (inheritStep cid i) b) ∧
     (∀ f ∈ subKeys (getObj b i), f ∈ subKeys (getObj (l.foldl (inheritStep cid i) b) i)) ∧
     (∀ fs ∈ l, fs.2.filter ∈ subKeys (getObj (l.foldl (inheritStep cid i) b) i)) := by
@@ -723,7 +723,7 @@ theorem inheritFold_spec (cid : Str) (i : Nat) (l : List (Str × Sub)) (b : Serv
     rw [hn0]
     have key : Own i b (modObj { b with topics := (subscribe b.topics cid fs.2).1, info := n0 } i
         (fun x => { x with subs := assocSet x.subs fs.2.filter fs.2 })) := by
-      have := subscribeStep_own b i hi fs.2 n0
+      have := subscribeStep_own b i hi fs.2 n0 (hnb fs (List.mem_cons_self ..))
       rw [hid] at this
       exact this
     have hself : getObj (modObj { b with topics := (subscribe b.topics cid fs.2).1, info := n0 } i
@@ -731,6 +731,7 @@ theorem inheritFold_spec (cid : Str) (i : Nat) (l : List (Str × Sub)) (b : Serv
         { getObj b i with subs := assocSet (getObj b i).subs fs.2.filter fs.2 } :=
       getObj_setObj_eq { b with topics := (subscribe b.topics cid fs.2).1, info := n0 } i _ hi
     obtain ⟨o, hk, hl⟩ := ih _ (by rw [key.len]; exact hi) (by rw [key.id]; exact hid)
+      (fun fs' hfs' => hnb fs' (List.mem_cons_of_mem _ hfs'))
     refine ⟨key.trans o, fun f hf => hk f ?_, fun fs' hfs' => ?_⟩
     · rw [hself]
       exact mem_keys_assocSet_of_mem _ _ _ _ hf
@@ -852,7 +853,7 @@ theorem admitA_inv {s : Server} {i : Nat} {k : Connect} (h : SyncInvX (· = i) s
         intro f hcf
         have hcf' : Entry s3.topics (getObj sD e).id f := by rw [hidD]; exact hcf
         exfalso
-        rcases o3.ent_own hD.idx f hcf' with ⟨e0, k0⟩ | k1
+        rcases o3.ent_own hD.idx (hD.key e) f hcf' with ⟨e0, k0⟩ | k1
         · rw [hidD] at e0
           obtain ⟨j, hj, hf⟩ := hD.own _ f e0
           rw [hregD] at hj
@@ -892,7 +893,11 @@ theorem admitA_inv {s : Server} {i : Nat} {k : Connect} (h : SyncInvX (· = i) s
       have hid3 : (getObj s3 i).id = k.id := by
         rw [(q23.obj i).id, hs2k i hei.symm, (qD.obj i).id]; exact hid
       -- s4: the subscriptions are copied
-      obtain ⟨o34, _, hkeys⟩ := inheritFold_spec k.id i ex2.subs s3 hi3 hid3
+      obtain ⟨o34, _, hkeys⟩ := inheritFold_spec k.id i ex2.subs s3 hi3 hid3 (by
+        intro fs hfs
+        rw [hex2] at hfs
+        have hko := hD.key e fs hfs
+        rw [hko.1]; exact hko.2)
       have hs4 : s4 = ex2.subs.foldl (inheritStep k.id i) s3 := rfl
       rw [← hs4] at o34 hkeys
       -- s5, s6: the old object is emptied
@@ -1006,13 +1011,16 @@ theorem admitA_inv {s : Server} {i : Nat} {k : Connect} (h : SyncInvX (· = i) s
           unfold subKeys
           rw [(q56.obj i).subs, hs5k i hei.symm]
         rw [hk6]
-        rcases o34.ent_own (q23.idx hD.idx) f h4 with ⟨e0, _⟩ | k1
+        have hi_key3 : KeyOK (getObj s3 i) := by
+          unfold KeyOK
+          rw [(q23.obj i).subs, hs2k i hei.symm]; exact hD.key i
+        rcases o34.ent_own (q23.idx hD.idx) hi_key3 f h4 with ⟨e0, _⟩ | k1
         · rw [hid3] at e0
           obtain ⟨j, hj, hf⟩ := hD.own _ f (hent3 _ f e0)
           rw [hregD] at hj
           cases hj
           obtain ⟨fs, hfs, hfk⟩ := List.mem_map.mp hf
-          have hko := hD.key e fs hfs
+          have hko := (hD.key e fs hfs).1
           rw [← hfk, ← hko]
           exact hkeys fs (by rw [hex2]; exact hfs)
         · exact k1
